@@ -52,10 +52,23 @@ pub struct DamageWorkload {
     pub base: u64,
 }
 
-type Content = (usize, bool, Vec<String>, Vec<(u128, Vec<u8>)>);
+/// what a loader made of a file: k, strand, names, rows, and a digest of the bytes the loaded
+/// array is saved as again - everything the file stores, including what no accessor shows (the
+/// per-row counts, the recorded width and version)
+type Content = (usize, bool, Vec<String>, Vec<(u128, Vec<u8>)>, u64);
 
 fn load_as<IntT: for<'a> UInt<'a> + Into<u128>>(path: &str) -> Result<Content, String> {
-    let r = std::panic::catch_unwind(|| MergeSkaArray::<IntT>::load(path).map(|a| (a.kmer_len(), a.rc(), a.names().clone(), a.iter().map(|(k, v)| (k.into(), v)).collect::<Vec<_>>())));
+    let r = std::panic::catch_unwind(|| {
+        MergeSkaArray::<IntT>::load(path).map(|a| {
+            let tmp = format!("{path}.resaved");
+            let digest = match a.save(&tmp) {
+                Ok(()) => crate::util::fnv(&std::fs::read(&tmp).unwrap_or_default()),
+                Err(_) => 0,
+            };
+            let _ = std::fs::remove_file(&tmp);
+            (a.kmer_len(), a.rc(), a.names().clone(), a.iter().map(|(k, v)| (k.into(), v)).collect::<Vec<_>>(), digest)
+        })
+    });
     match r {
         Ok(Ok(c)) => Ok(c),
         Ok(Err(e)) => Err(e.to_string()),
@@ -91,6 +104,32 @@ fn regions(data: &[u8]) -> Vec<&'static str> {
     }
     r
 }
+/// length of the stream a snappy frame-format file decompresses to (from the chunk headers)
+pub fn uncompressed_len(data: &[u8]) -> usize {
+    let (mut pos, mut total) = (0, 0);
+    while pos + 4 <= data.len() {
+        let len = data[pos + 1] as usize | (data[pos + 2] as usize) << 8 | (data[pos + 3] as usize) << 16;
+        match data[pos] {
+            0x00 if pos + 8 < data.len() => {
+                // after the 4 checksum bytes: the uncompressed length as a little-endian base-128 varint
+                let (mut v, mut shift, mut i) = (0usize, 0, pos + 8);
+                while i < data.len() {
+                    v |= ((data[i] & 0x7f) as usize) << shift;
+                    if data[i] & 0x80 == 0 {
+                        break;
+                    }
+                    shift += 7;
+                    i += 1;
+                }
+                total += v;
+            }
+            0x01 => total += len.saturating_sub(4),
+            _ => {}
+        }
+        pos += 4 + len;
+    }
+    total
+}
 pub fn frame_ends(data: &[u8]) -> Vec<usize> {
     let mut v = vec![];
     let mut pos = 0;
@@ -115,6 +154,10 @@ impl DamageWorkload {
             // 124-bit values, which snappy stores as an UNCOMPRESSED chunk (checksummed, but handled
             // on another code path of the decoder)
             FileSpec { kind: "stored128".into(), k: 63, single_strand: true, n: 1, len: 4200, gen_seed: g(9) },
+            // two frames, the second holding only the last few hundred bytes of the serialised
+            // array: damage confined to a small last frame, i.e. to whatever the format stores last
+            // (the genome length is stepped until the uncompressed length lands just past 64 KiB)
+            FileSpec { kind: "tailframe".into(), k: 31, single_strand: false, n: 2, len: 5200, gen_seed: g(10) },
         ];
         if tier == Tier::Thorough {
             v.push(FileSpec { kind: "small128k63".into(), k: 63, single_strand: false, n: 2, len: 200, gen_seed: g(6) });
@@ -124,7 +167,7 @@ impl DamageWorkload {
         v
     }
     fn slices(kind: &str) -> usize {
-        if kind.starts_with("multiframe") {
+        if kind.starts_with("multiframe") || kind == "tailframe" {
             96
         } else if kind == "stored128" {
             128
@@ -139,9 +182,16 @@ impl DamageWorkload {
             let s = Self::slices(&f.kind);
             // the large stored-chunk file is sampled at the quick tier (every byte with one seeded bit,
             // every 16th prefix) and enumerated completely at the thorough tier
-            let complete = tier == Tier::Thorough || f.kind != "stored128";
+            let complete = tier == Tier::Thorough || !matches!(f.kind.as_str(), "stored128" | "tailframe");
             for i in 0..s {
                 v.push((f.clone(), Mode::Loads { slice: i, of: s, prefix_every: if complete { 1 } else { 16 }, all_bits: complete, bit_seed: mix(self.base, i as u64) }));
+            }
+            if !complete && f.kind == "tailframe" {
+                // the last sixteenth of the file (its small last frame and the end of the one before)
+                // completely at the quick tier too
+                for i in s - s / 16..s {
+                    v.push((f.clone(), Mode::Loads { slice: i, of: s, prefix_every: 1, all_bits: true, bit_seed: 0 }));
+                }
             }
         }
         let (np, nc) = if tier == Tier::Quick { (10, 8) } else { (120, 96) };
@@ -205,6 +255,36 @@ impl<'a> Ex<'a> {
     }
     /// produce the valid file `orig.skf` (and `good.skf`, a second valid file with other samples)
     fn make_files(&mut self) -> Result<Option<Vec<Sample>>, HarnessError> {
+        if self.c.file.kind == "tailframe" {
+            // the uncompressed length grows by about u/len bytes per base: step straight to the
+            // middle of the window, then correct (a handful of builds)
+            let mut len = self.c.file.len;
+            for _t in 0..40 {
+                let mut f = self.c.file.clone();
+                f.len = len;
+                let samples = samples_for(&f);
+                for s in &samples {
+                    self.dir.write(&s.file(), &s.bytes());
+                }
+                let r = self.run_seeded(self.build_args("orig", &samples), self.c.file.gen_seed >> 1, None)?;
+                if !r.ok() {
+                    return Ok(None);
+                }
+                let u = uncompressed_len(&self.dir.read("orig.skf").unwrap_or_default());
+                if u > 65536 && (150..=1500).contains(&(u % 65536)) {
+                    probe("c19_tailframe_last_frame_holds_under_1500_bytes");
+                    return Ok(Some(samples));
+                }
+                let per_base = (u / len.max(1)).max(1);
+                let want = if u < 65536 + 800 { 65536 + 800 } else { (u / 65536) * 65536 + 800 };
+                if want > u {
+                    len += ((want - u) / per_base).max(1);
+                } else {
+                    len = len.saturating_sub(((u - want) / per_base).max(1)).max(4 * self.c.file.k);
+                }
+            }
+            return Ok(None);
+        }
         let samples = samples_for(&self.c.file);
         for s in &samples {
             self.dir.write(&s.file(), &s.bytes());
@@ -277,14 +357,14 @@ impl Workload for DamageWorkload {
         "fault_enumeration"
     }
     fn exhaustive(&self, tier: Tier) -> bool {
-        // quick: complete for five of the six files, the sixth is sampled
+        // quick: complete for five of the seven files, the two large ones are sampled
         tier == Tier::Thorough
     }
     fn runs_needed(&self, tier: Tier) -> Option<u64> {
         Some(self.plan(tier).len() as u64)
     }
     fn rule(&self) -> String {
-        "fault enumeration over six valid files produced by real simulated processes (64-bit k=15, 128-bit k=41, k=37 whose k-mers fit in 64 bits, a 64-bit file rewritten in place by weed --filter-ambig-as-missing, a k=31 file of two compression frames, and a k=63 one-sample file whose chunk snappy stores uncompressed): every proper prefix and every single-bit flip (complete for the first five files at both tiers; the sixth, 80 KB, is sampled at the quick tier - every byte with one seeded bit, every 16th prefix - and complete at the thorough tier, which is therefore the exhaustive one; thorough also adds a k=63 file, a k=5 file and a 128-bit file of several frames, and more subcommand / crash samples) is given to MergeSkaArray::<u64>::load and ::<u128>::load; a seeded sample of images goes to every subcommand as simulated processes; crash_at_byte(n) is injected into real build/merge/delete/weed writers. evaluations = loader calls + subcommand executions on damaged images; distinct_nontrivial = distinct damaged images (file, prefix length | byte, bit) - every one is non-trivial because it differs from the valid file".into()
+        "fault enumeration over seven valid files produced by real simulated processes (64-bit k=15, 128-bit k=41, k=37 whose k-mers fit in 64 bits, a 64-bit file rewritten in place by weed --filter-ambig-as-missing, a k=31 file of two compression frames, a k=63 one-sample file whose chunk snappy stores uncompressed, and a k=31 file whose second frame holds only the last 150..1500 bytes of the serialised array): every proper prefix and every single-bit flip (complete for the first five files at both tiers; the two large ones, 80-100 KB, are sampled at the quick tier, the last sixteenth of the small-last-frame file completely - every byte with one seeded bit, every 16th prefix - and complete at the thorough tier, which is therefore the exhaustive one; thorough also adds a k=63 file, a k=5 file and a 128-bit file of several frames, and more subcommand / crash samples) is given to MergeSkaArray::<u64>::load and ::<u128>::load, and an accepted image must give the original k, strand, names, k-mers and bases and be saved again as the same bytes as the original (so that stored state no accessor shows - counts, width, version - is compared too); a seeded sample of images goes to every subcommand as simulated processes; crash_at_byte(n) is injected into real build/merge/delete/weed writers. evaluations = loader calls + subcommand executions on damaged images; distinct_nontrivial = distinct damaged images (file, prefix length | byte, bit) - every one is non-trivial because it differs from the valid file".into()
     }
     fn assumptions(&self) -> Vec<String> {
         vec![
@@ -316,7 +396,7 @@ impl Workload for DamageWorkload {
             (Ok(a), Err(_)) => a.clone(),
             (Err(_), Ok(b)) => b.clone(),
             (Ok(a), Ok(b)) => {
-                if a != b {
+                if (&a.0, &a.1, &a.2, &a.3) != (&b.0, &b.1, &b.2, &b.3) {
                     out.violation = Some(("load:valid-file-read-differently-by-width".into(), format!("{} decodes differently as 64-bit and as 128-bit", c.file.kind)));
                     out.log = ex.log;
                     return Ok(out);
@@ -354,9 +434,10 @@ impl Workload for DamageWorkload {
             for (w, r) in [(64, load_as::<u64>(&imgp)), (128, load_as::<u128>(&imgp))] {
                 if let Ok(got) = r {
                     if got != content {
+                        let hidden = (&got.0, &got.1, &got.2, &got.3) == (&content.0, &content.1, &content.2, &content.3);
                         return Err((
                             format!("load:{w}-bit-loader-accepts-damaged-file-as-different-data"),
-                            format!("{} of {} ({} bytes): accepted with k={} rc={} names={:?} rows={} (original k={} names={:?} rows={})", what, c.file.kind, orig.len(), got.0, got.1, got.2, got.3.len(), content.0, content.2, content.3.len()),
+                            format!("{} of {} ({} bytes): accepted with k={} rc={} names={:?} rows={} (original k={} names={:?} rows={}){}", what, c.file.kind, orig.len(), got.0, got.1, got.2, got.3.len(), content.0, content.2, content.3.len(), if hidden { "; k-mers and bases agree but the loaded array is saved as other bytes than the original's: stored state that no accessor shows (per-row counts, width, version) differs" } else { "" }),
                         ));
                     }
                     accepted = true;
